@@ -298,3 +298,7 @@ pub fn open_rocks_store(
         inner: server_store,
     })
 }
+
+#[cfg(kani)]
+#[path = "/verif/kani/swimos_rocks_store/store_key.rs"]
+mod verif_kani;
